@@ -13,7 +13,7 @@ import re
 from ..engine import rule
 from ..model import Undecided
 from ..cfg import implied, dotted, call_name, is_call, simple_name, unparse, const_value, contains, enclosing, find_all
-from ..flow import Defs, depends, expand, Prov, scoped_defs
+from ..flow import Canon, Defs, depends, expand, Prov, scoped_defs
 from ..decide import table, ret_kind
 from ..pathflow import PathFlow, effect_args, safe, BUILDERS
 from ..util import resolve1, keyword, returns_of, calls_in, inside, order_key
@@ -251,6 +251,8 @@ def c09c(ctx):
                             continue
                         found += 1
                         ok = False
+                        # closed form: components held in locals (`col = int(..); self.tile = (col, ..)`) count as what they are
+                        v = Canon(fn).expr(v)
                         if isinstance(v, ast.Tuple):
                             ok = len(v.elts) == 3 and all(_int_component(e) for e in v.elts)
                         elif isinstance(v, ast.Call) and call_name(v) == 'tuple' and v.args and \
@@ -366,6 +368,27 @@ def _helper_sanitises(h, depth):
                             g = enclosing(a, ast.If)
                             if g is None or not inside(g, st) or unparse(g.test) == st.target.id:
                                 ok = True
+        if not ok:
+            # the unrolled form: `name = name.replace(<sep>, <safe>)` statements that every path to the return executes
+            # (a statement under `if '/':` is unconditional: the constant test is decided in the control-flow graph)
+            g = h.cfg
+            rn = g.node_of.get(id(r))
+            removed = set()
+            for a in h.walk():
+                if isinstance(a, ast.Assign) and len(a.targets) == 1 and isinstance(a.targets[0], ast.Name) and a.targets[0].id == name \
+                        and is_call(a.value, name + '.replace') and len(a.value.args) == 2 and id(a) in g.node_of and rn is not None \
+                        and g.dominates(g.node_of[id(a)], rn):
+                    rv = const_value(a.value.args[1])
+                    if isinstance(rv, str) and '/' not in rv and '\\' not in rv:
+                        a0 = a.value.args[0]
+                        removed.add(const_value(a0) if isinstance(a0, ast.Constant) else unparse(a0))
+            # nothing but the replaces (and the initial conversion of the parameter) may assign the name
+            others = [a for a in h.walk() if isinstance(a, ast.Assign) and any(isinstance(t, ast.Name) and t.id == name for t in a.targets)
+                      and not is_call(a.value, name + '.replace') and not (is_call(a.value, 'str') and len(a.value.args) == 1)]
+            unsafe = [a for a in h.walk() if isinstance(a, ast.Assign) and is_call(a.value, name + '.replace') and
+                      not (len(a.value.args) == 2 and isinstance(const_value(a.value.args[1]), str) and
+                           '/' not in const_value(a.value.args[1]) and '\\' not in const_value(a.value.args[1]))]
+            ok = {'/', '\\'} <= removed and not others and not unsafe
         if not ok:
             return False
     return True
